@@ -223,6 +223,18 @@ func c01GenSQL(rt *rapid.T) c01SQLCase {
 			if rapid.Bool().Draw(rt, "single") {
 				pool = []int{rapid.IntRange(1, 4).Draw(rt, "the")}
 			}
+			if rapid.Bool().Draw(rt, "focused") {
+				// one entry point x one benign outcome x one way of producing it, so that a
+				// single miscounting path is not diluted by the healthy ones
+				if rapid.Bool().Draw(rt, "tx") {
+					entries = []string{rapid.SampledFrom([]string{"transact", "transactnoctx"}).Draw(rt, "txentry")}
+				} else {
+					entries = []string{rapid.SampledFrom(all[:6]).Draw(rt, "entry")}
+				}
+				o := rapid.IntRange(1, 4).Draw(rt, "fo")
+				pool = []int{o}
+				fixB = rapid.SampledFrom(map[int][]int{1: {0, 1, 4}, 2: {0, 1, 2, 3}, 3: {0, 1}, 4: {0}}[o]).Draw(rt, "fb")
+			}
 			for i := 0; i < ln; i++ {
 				scripts[n] = append(scripts[n], mk(n, rapid.SampledFrom(entries).Draw(rt, "e"), rapid.SampledFrom(pool).Draw(rt, "o")))
 			}
@@ -445,6 +457,6 @@ func c01InterpSQL(t *testing.T, c c01SQLCase) (v kit.Verdict) {
 }
 
 func TestVerif_C01_sqlx_run(t *testing.T) {
-	kit.Run(t, "C01", "sqlx-run", kit.Opts{Quick: 200, Thorough: 4800}, c01GenSQL,
+	kit.Run(t, "C01", "sqlx-run", kit.Opts{Quick: 400, Thorough: 6400}, c01GenSQL,
 		func(c c01SQLCase) kit.Verdict { return c01InterpSQL(t, c) })
 }
